@@ -274,6 +274,44 @@ Proof.
         rewrite Forall_forall in Ms, Hok. apply upd_enum_sig_wf; auto.
 Qed.
 
+
+(* ------------------------------------------------------------------ Node.UpdateID as the dump sees it *)
+Lemma map_msgs_wf : forall f r, (forall m, wf_msg m -> wf_msg (f m)) ->
+  (forall m, msg_key (f m) = msg_key m) -> wf_net r -> wf_net (map_msgs f r).
+Proof.
+  intros f r Hf Hk [Wn Wb]. unfold map_msgs. split; cbn [rt_buses].
+  - rewrite map_map. cbn [rb_name]. exact Wn.
+  - apply Forall_forall. intros b Hin. apply in_map_iff in Hin as [b0 [<- Hb0]].
+    rewrite Forall_forall in Wb. destruct (Wb _ Hb0) as (Wa & Wi & Wx).
+    split; [exact Wa|]. cbn [rb_nifs]. split.
+    + rewrite map_map. cbn [rn_id]. exact Wi.
+    + apply Forall_forall. intros x Hx. apply in_map_iff in Hx as [x0 [<- Hx0]].
+      rewrite Forall_forall in Wx. destruct (Wx _ Hx0) as (Xa & Xk & Xm).
+      split; [exact Xa|]. cbn [rn_msgs]. split.
+      * rewrite map_map. rewrite (map_ext _ msg_key); [exact Xk|]. exact Hk.
+      * apply Forall_forall. intros m Hm. apply in_map_iff in Hm as [m0 [<- Hm0]].
+        rewrite Forall_forall in Xm. apply Hf. now apply Xm.
+Qed.
+
+Lemma set_recv_id_wf : forall h new m, wf_msg m -> wf_msg (set_msg_recv (map (set_recv_id h new) (rm_recv m)) m).
+Proof.
+  intros h new m (Wa & Wk & Wr & Ws). unfold wf_msg. cbn [set_msg_recv rm_attrs rm_recv rm_sigs].
+  split; [exact Wa|]. split; [|split; [|exact Ws]].
+  - rewrite map_map. rewrite (map_ext _ recv_key); [exact Wk|].
+    intros rc. unfold set_recv_id. destruct (N.eqb (rr_h rc) h); reflexivity.
+  - apply Forall_forall. intros rc Hrc. apply in_map_iff in Hrc as [rc0 [<- Hrc0]].
+    rewrite Forall_forall in Wr. specialize (Wr _ Hrc0). unfold set_recv_id. destruct (N.eqb (rr_h rc0) h); exact Wr.
+Qed.
+
+(* same acceptance condition as [mut_node_id] (Proofs.v) *)
+Lemma mut_node_id_full_wf : forall h new r, wf_net r ->
+  Forall (fun b => NoDup (map rn_h (rb_nifs b)) /\ ~ In new (map rn_id (rb_nifs b))) (rt_buses r) ->
+  wf_net (mut_node_id_full h new r).
+Proof.
+  intros h new r W Hf. unfold mut_node_id_full. apply map_msgs_wf; [intros; now apply set_recv_id_wf|reflexivity|].
+  now apply mut_node_id_wf.
+Qed.
+
 (* ------------------------------------------------------------------ the conditions are satisfiable *)
 Local Open Scope string_scope.
 Definition ex_new_recv : rrecv := {| rr_h := 22; rr_name := "other"; rr_eid := "e-n1"; rr_num := 0; rr_id := 1; rr_attrs := [] |}.
@@ -324,8 +362,11 @@ Lemma wf_net_preserved_more_lemma :
   /\ (forall h new r, wf_net r -> msg_static_ok r -> wf_net (mut_msg_static h new r))
   /\ (forall h node r, wf_net r -> wf_net (mut_msg_remove_recv h node r))
   /\ (forall h rc r, wf_net r -> msg_add_recv_ok h rc r -> wf_net (mut_msg_add_recv h rc r))
-  /\ (forall eid old new r, wf_net r -> enum_index_ok eid new r -> wf_net (mut_enum_value_index eid old new r)).
+  /\ (forall eid old new r, wf_net r -> enum_index_ok eid new r -> wf_net (mut_enum_value_index eid old new r))
+  /\ (forall h new r, wf_net r ->
+        Forall (fun b => NoDup (map rn_h (rb_nifs b)) /\ ~ In new (map rn_id (rb_nifs b))) (rt_buses r) ->
+        wf_net (mut_node_id_full h new r)).
 Proof.
   exact (conj mut_msg_name_wf (conj mut_msg_id_wf (conj mut_msg_static_wf (conj mut_msg_remove_recv_wf
-        (conj mut_msg_add_recv_wf mut_enum_value_index_wf))))).
+        (conj mut_msg_add_recv_wf (conj mut_enum_value_index_wf mut_node_id_full_wf)))))).
 Qed.
